@@ -157,6 +157,28 @@ def generate(rng, tier, index, focus):
             if kind == "gaussian_plane":
                 s["radius"] = 2.5 * specgen.SPACING
         srcs.append(s)
+    if focus == "C29" and all_iso and not dispersive and (index % 4 == 1 or rng.uniform() < 0.1):
+        # a material-dependent object: a mode source on a full transverse plane that cuts a device (its mode profile is solved
+        # from every material array on that plane); in most of these scenes the background is conductive, so the
+        # conductivity array is one of the arrays the re-applied source must be given
+        dv = devices[int(rng.integers(0, len(devices)))]
+        ax = int(rng.integers(0, 3))
+        p = int(rng.integers(dv["box"][ax][0], dv["box"][ax][1]))
+        if 1 <= p < shape[ax] - 1 or ax != 0:
+            box = [[0, n] for n in shape]
+            box[ax] = [p, p + 1]
+            if ax != 0:
+                box[0] = [1, shape[0]]  # the probe column (x = 0) holds unrelated reference cells
+            cpw = float(rng.uniform(8, 14))
+            srcs.append({"kind": "mode", "name": f"sm_{tag}", "box": box, "direction": specgen.choice(rng, ["+", "-"]), "wavelength": cpw * specgen.SPACING,
+                         "profile": {"kind": "cw"}, "mode_index": 0, "relation": ["mode_plane"] * 3})
+            if rng.uniform() < 0.75:
+                bgs = [o for o in objs if o["name"].startswith("bg")]
+                if not bgs:
+                    bgs = [{"kind": "box", "name": "bg0", "box": [[1, shape[0]], [0, shape[1]], [0, shape[2]]], "material": _mat(rng, "iso"), "order": 0}]
+                    objs.insert(0, bgs[0])
+                for o in bgs:
+                    o["material"]["electric_conductivity"] = float(rng.uniform(0.05, 0.5))
     for i in range(int(rng.integers(0, 3))):
         dets.append(specgen.rand_field_detector(rng, f"d{i}_{tag}", shape, T, switch=False))
     spec["sources"], spec["detectors"] = srcs, dets
@@ -397,6 +419,10 @@ def execute(spec, focus):
             )
             la, lb = jax.tree.leaves(o), jax.tree.leaves(fresh)
             stats["objects_compared"] = stats.get("objects_compared", 0) + 1
+            if type(o).__name__ == "ModePlaneSource":
+                stats["probe_mode_source_compared"] = stats.get("probe_mode_source_compared", 0) + 1
+                if arrays.electric_conductivity is not None and float(jnp.max(jnp.abs(arrays.electric_conductivity[(slice(None),) + tuple(slice(a, b) for a, b in o.grid_slice_tuple)]))) > 0:
+                    stats["probe_mode_source_on_conductive_plane"] = stats.get("probe_mode_source_on_conductive_plane", 0) + 1
             if len(la) != len(lb):
                 viol.append({"monitor": "stale_object_state", "object": o.name, "detail": "leaf count differs"})
                 continue
